@@ -8,7 +8,7 @@
    [asg_get a m] = assignments.get(m, {}); [parts_of d t] = d.get(t, []);
    [assigned_count a ids t p] = number of occurrences of p under topic t, summed over the members ids.
    No bound on the number of members, topics, partitions, or on the length of names. *)
-From AV Require Import Base.Util Model.Assign Proofs.AssignDict Proofs.AssignCodec Proofs.AssignLeader Proofs.AssignC15.
+From AV Require Import Base.Util Model.Assign Proofs.AssignDict Proofs.AssignCodec Proofs.AssignLeader Proofs.AssignC15 Proofs.AssignFuel.
 From Coq Require Import Sorting.Permutation.
 
 (* When the leader's computation is defined, and that the inner `while` never spins for ever:
@@ -35,7 +35,13 @@ Print Assumptions C15_all_topics.
 (* Exactly one.  Summed over the distinct member ids, partition p of topic t is assigned as many times
    as tp lists it if some member subscribes t, and never otherwise (topic nobody subscribes, partition
    not listed, topic with no partitions); hence exactly once when tp[t] lists p without repetition.
-   Nothing is assigned to an id that is not a member. *)
+   Nothing is assigned to an id that is not a member.
+   Last two conjuncts (audit 2.1): the counts above read [a] through dict_get (first match), while the
+   encoder walks the whole association list; so it is stated HERE, unconditionally, that [a] (the dict
+   member_id -> share that _round_robin_assignment returns) has no repeated member id and that no share
+   has a repeated topic - nothing is hidden behind a first match.  [a] is keyed by the DISTINCT ids
+   (a repeated id in [members] is one key); the per-member OUTPUT list of generate_assignments follows
+   [members] including repetitions, which is C15_decode_encode (map fst out = map fst members). *)
 Theorem C15_exactly_one : forall members tp a, leader_assign members tp = Ok a ->
   let md := build_md members in
   NoDup (map fst md) /\
@@ -44,7 +50,8 @@ Theorem C15_exactly_one : forall members tp a, leader_assign members tp = Ok a -
                if some_subscriber md t then count_occ Z.eq_dec (parts_of tp t) p else 0%nat) /\
   (forall t p, some_subscriber md t = true -> NoDup (parts_of tp t) -> In p (parts_of tp t) ->
                assigned_count a (map fst md) t p = 1%nat) /\
-  (forall m, In m (map fst a) -> In m (map fst members)).
+  (forall m, In m (map fst a) -> In m (map fst members)) /\
+  NoDup (map fst a) /\ (forall m, NoDup (map fst (asg_get a m))).
 Proof. exact c15_exactly_one. Qed.
 Print Assumptions C15_exactly_one.
 
@@ -123,6 +130,19 @@ Theorem C15_metadata_roundtrip : forall v subs ud b, enc_metadata v subs ud = Ok
 Proof. exact enc_dec_metadata. Qed.
 Print Assumptions C15_metadata_roundtrip.
 
+(* The decoder models are total for the right reason (audit 2.2): on ARBITRARY bytes - hostile counts
+   included - the out-of-fuel artefact of the model is unreachable (fuel S (length data); every iteration
+   of `for _ in range(n)` consumes at least six resp. two bytes or raises).  So every Err of the decoders
+   in the correspondence stands for a Python exception, never for the model running out of steps. *)
+Theorem C15_decoders_no_fuel_assignment : forall data,
+  dec_assignment data <> Err EFuel /\ decode_assignment data <> Err EFuel.
+Proof. exact (fun data => conj (dec_assignment_nofuel data) (decode_assignment_nofuel data)). Qed.
+Print Assumptions C15_decoders_no_fuel_assignment.
+
+Theorem C15_decoders_no_fuel_metadata : forall data, dec_metadata data <> Err EFuel.
+Proof. exact dec_metadata_nofuel. Qed.
+Print Assumptions C15_decoders_no_fuel_metadata.
+
 (* ---- non-vacuity ---------------------------------------------------------------------------
    ids "c","a","b","d" (listed unsorted); topics "t","u","v","w";  c:[t,u]  a:[t]  b:[u,t,t]  d:[]
    tp: t -> [7,0,3,5,9] (non-contiguous, unsorted), u -> [1,0], v -> [4] (nobody subscribes), w -> [] *)
@@ -193,3 +213,7 @@ Example ex_codec_bad : enc_assignment 0 [([233], [0])] None = Err EUnicode /\ en
 Proof. vm_compute. auto. Qed.
 Example ex_metadata : enc_metadata 0 [[116]; [195; 169]] (Some []) = Ok [0; 0; 0; 0; 0; 2; 0; 1; 116; 0; 2; 195; 169; 0; 0; 0; 0].
 Proof. vm_compute. reflexivity. Qed.
+(* hostile counts: 2^31-1 topics / subscriptions claimed in ten bytes: BufferUnderflowError, not out-of-fuel *)
+Example ex_hostile_count : dec_assignment [0; 0; 127; 255; 255; 255; 0; 1; 116; 0] = Err EUnderflow /\
+  dec_metadata [0; 0; 127; 255; 255; 255; 0; 0; 0; 0] = Err EUnderflow.
+Proof. vm_compute. auto. Qed.
